@@ -33,7 +33,13 @@ def with_data_segment(image):
     # data bits above every cell size (1 / 4 / 8) and asymmetric, so that a read which lets one cell's upper bits leak into the next
     # cell, or swaps / merges cells, shows another value (0xA5 / 0x5A were symmetric: a leaking read gave the same numbers)
     data.update({DATA_SEG: 3, DATA_SEG + 1: ((0x2E7 << sh) | 1) & m, DATA_SEG + 2: 0, DATA_SEG + 3: ((0x1B4 << sh) | 2) & m})
-    return R1.Image(w, list(image.segments) + [(DATA_SEG, 4)], data)
+    segs = list(image.segments) + [(DATA_SEG, 4)]
+    if w >= 16:
+        # one op in a segment that ends exactly at the top of the address space: its jump word is the LAST word of the memory (`r 2^w-w`)
+        top = (1 << w) // w
+        segs.append((top - 2, 2))
+        data.update({top - 2: 0, top - 1: ((0x155 << sh) | 5) & m})
+    return R1.Image(w, segs, data)
 
 
 def labels(w):
